@@ -840,6 +840,82 @@ def fam_shared_byref(tier, rng):
 FAMILIES.append(fam_shared_byref)
 
 
+def fam_args_mix(tier, rng):
+    """two and three by-reference arguments of different shapes (plain variable, array element, member of a record) in every
+    order, each parameter given its own value by the callee (a SUB or a FUNCTION): every value comes back to its own place;
+    fraction literals given to INTEGER / LONG parameters directly, in parentheses and to a FUNCTION; parameterless functions
+    with a dot in their names as arguments"""
+    import itertools
+    out = []
+    td = typedef("RC", [("Y", "I"), ("Z", "I")])
+    shapes = {"var": lambda: var("K", "I"), "idx": lambda: idx("AR", "I", [lit("I", 3)]), "fld": lambda: fld(var("RR", "U"), "Y", "I"),
+              "var2": lambda: var("M", "I"), "idx0": lambda: idx("AR", "I", [lit("I", 0)])}
+    for n in (2, 3):
+        for combo in itertools.permutations(["var", "idx", "fld", "var2", "idx0"], n):
+            if n == 3 and rng.random() < 0.6 and tier != "thorough":
+                continue
+            for host in ("sub", "fun"):
+                b = B()
+                params = [("P%d" % j, "I") for j in range(n)]
+                body = [b.print(*[var(pn, "I") for pn, _ in params])] + [b.let(var(pn, "I"), lit("I", 101 * (j + 1))) for j, (pn, _) in enumerate(params)]
+                args = [shapes[c]() for c in combo]
+                main = [b.dim("AR", "I", [{"lo": lit("I", 0), "hi": lit("I", 4), "nolo": False}]), b.dim("RR", "U", ty="RC")]
+                main += [b.let(shapes[c](), lit("I", j + 1)) for j, c in enumerate(combo)]
+                if host == "sub":
+                    main.append(b.call("BOTH", args))
+                    subs = [sub("BOTH", params, body)]
+                else:
+                    fc = fcall("SUM", "I", args, 0)
+                    st = b.let(var("R", "I"), fc)
+                    fc["sid"] = st["id"]
+                    main.append(st)
+                    subs = [fun("SUM", "I", params, body + [b.let(var("SUM", "I"), lit("I", 7))])]
+                main.append(b.print(var("K", "I"), var("M", "I"), idx("AR", "I", [lit("I", 3)]), idx("AR", "I", [lit("I", 0)]),
+                                    fld(var("RR", "U"), "Y", "I"), fld(var("RR", "U"), "Z", "I"), var("R", "I")))
+                out.append({"fam": "args-mix:%s/%s" % ("+".join(combo), host), "prog": prog(main, subs, types=[td])})
+    # fraction literals to whole-number parameters
+    for t in ("I", "L"):
+        for w, f_, neg in ((2, 7, False), (2, 3, False), (1, 6, True), (99, 9, False), (0, 6, False), (0, 4, True)):
+            for form in ("bare", "par", "fun"):
+                b = B()
+                lit_ = flit("S", w, f_, neg)
+                arg = par(lit_) if form == "par" else lit_
+                x = var("X", t)
+                if form == "fun":
+                    fc = fcall("TENS", t, [arg], 0)
+                    st = b.print(fc)
+                    fc["sid"] = st["id"]
+                    main = [st]
+                    subs = [fun("TENS", t, [("X", t)], [b.let(var("TENS", t), bin_("*", x, lit("I", 10)))])]
+                else:
+                    main = [b.call("SHOW", [arg])]
+                    subs = [sub("SHOW", [("X", t)], [b.print(x)])]
+                out.append({"fam": "args-fraclit:%s/%d.%d%s/%s" % (t, w, f_, "-" if neg else "", form), "prog": prog(main, subs)})
+    # a parameterless FUNCTION whose name contains a dot, as an argument (a call; its result is passed by value)
+    for t in T5:
+        for form in ("bare", "par", "twice"):
+            b = B()
+            x = var("X", t)
+            zq = fcall("NEXT.ID", t, [], 0)
+            arg = par(zq) if form == "par" else zq
+            c = b.call("P", [arg])
+            zq["sid"] = c["id"]
+            main = [c]
+            if form == "twice":
+                zq2 = fcall("NEXT.ID", t, [], 0)
+                c2 = b.call("P", [zq2])
+                zq2["sid"] = c2["id"]
+                main.append(c2)
+            main.append(b.print(lit("$", "calls"), var("G", "I")))
+            subs = [sub("P", [("X", t)], [b.print(lit("$", "in"), x), b.let(x, v1(t))]),
+                    fun("NEXT.ID", t, [], [b.let(var("G", "I"), bin_("+", var("G", "I"), lit("I", 1))), b.let(var("NEXT.ID", t), v0(t))])]
+            out.append({"fam": "args-dotted-fn:%s/%s" % (t, form), "prog": prog([b.dim("G", "I", shared=True)] + main, subs)})
+    return out
+
+
+FAMILIES.append(fam_args_mix)
+
+
 def cases(tier, seed):
     rng = random.Random(seed)
     out = []
